@@ -112,6 +112,19 @@ func Run(r *core.Run) {
 		cases = append(cases, fault.EnumerateCraftedCases("ecdsa-keygen", 1)...)
 		cases = append(cases, fault.EnumerateCraftedCases("ecdsa-resharing", 1)...)
 	}
+	// debugging aid: VERIF_C06_FILTER=<substring> restricts layer 1 to the deviations whose operation contains
+	// the substring and skips layer 2 (such a run is marked non-exhaustive)
+	filter := os.Getenv("VERIF_C06_FILTER")
+	if filter != "" {
+		var sel []fault.Case
+		for _, c := range cases {
+			if strings.Contains(c.Dev.Op, filter) {
+				sel = append(sel, c)
+			}
+		}
+		cases = sel
+		r.Cap("VERIF_C06_FILTER=" + filter)
+	}
 	for i := range cases {
 		cases[i].ID = i
 	}
@@ -162,7 +175,9 @@ func Run(r *core.Run) {
 	r.Set("l1_outcome_histogram", hist)
 	r.Set("l1_wall_s", int(time.Since(t0).Seconds()))
 	r.Set("l1_plans", fmt.Sprint(plans))
-	RunLayer2(r)
+	if filter == "" {
+		RunLayer2(r)
+	}
 	ev := int(r.Get("l1_executions")) + int(r.Get("l2_calls"))
 	r.Set("evaluations", ev)
 	r.Set("distinct_nontrivial", r.NDistinct("l1_cases")+r.NDistinct("l2_cases"))
